@@ -34,6 +34,24 @@ config!(CHeap3n, "heap3n", dyn TNone, Heap, Heap, E3a1n, false, 0, "heap");
 config!(CHeap160, "heap160", dyn Cloneable, Heap, Heap, E160a8d, false, 0, "heap");
 #[cfg(feature = "alloc")]
 config!(CHeap0d, "heap0d", dyn TNone, Heap, Heap, E0a1d, false, 0, "heap");
+#[cfg(feature = "alloc")]
+config!(CHeap1n, "heap1n", dyn TNone, Heap, Heap, E1a1n, false, 0, "heap");
+#[cfg(feature = "alloc")]
+config!(CHeap2d, "heap2d", dyn TNone, Heap, Heap, E2a2d, false, 0, "heap");
+#[cfg(feature = "alloc")]
+config!(CHeap12d, "heap12d", dyn TNone, Heap, Heap, E12a4d, false, 0, "heap");
+#[cfg(feature = "alloc")]
+config!(CHeap16d, "heap16d", dyn TNone, Heap, Heap, E16a16d, false, 0, "heap");
+#[cfg(feature = "alloc")]
+config!(CHeap24d, "heap24d", dyn TNone, Heap, Heap, E24a8d, false, 0, "heap");
+#[cfg(feature = "alloc")]
+config!(CHeap32d, "heap32d", dyn TNone, Heap, Heap, E32a32d, false, 0, "heap");
+#[cfg(feature = "alloc")]
+config!(CHeap64n, "heap64n", dyn TNone, Heap, Heap, E64a64n, false, 0, "heap");
+#[cfg(feature = "alloc")]
+config!(CHeap160a32, "heap160a32", dyn TNone, Heap, Heap, E160a32d, false, 0, "heap");
+#[cfg(feature = "alloc")]
+config!(CHeap0n, "heap0n", dyn TNone, Heap, Heap, E0a1n, false, 0, "heap");
 config!(CStack24x3, "stack24x3", dyn TNone, Stack<72>, Stack::<72>, E24a8d, true, 3, "stack");
 config!(CStackN3, "stackn3", dyn Cloneable, StackN<3, 24>, StackN::<3, 24>, E8a8d, true, 3, "stackn");
 
@@ -72,7 +90,7 @@ fn fnv(s: &str) -> u64 {
 /// Replays the case trie and writes a TLC-ready tree trace: line 1 is the header, line p is the node with
 /// position p, `kids` are positions.  `shard = (i, n)`: the nodes of depth < SPLIT_DEPTH are in every shard,
 /// deeper nodes belong to the shard their depth-SPLIT_DEPTH ancestor hashes to.
-fn replay<C: Config>(cases: &str, out: &str, shard: (usize, usize), nvecs: usize, profile: &str, skip: &[i64]) {
+fn replay<C: Config>(cases: &str, out: &str, shard: (usize, usize), nvecs: usize, profile: &str, skip: &[i64], faults: bool) {
     let nodes = load_cases(cases);
     let mut index = std::collections::HashMap::new();
     for (k, n) in nodes.iter().enumerate() { index.insert(n.id, k); }
@@ -112,18 +130,21 @@ fn replay<C: Config>(cases: &str, out: &str, shard: (usize, usize), nvecs: usize
     let mut roots = vec![];
     for k in 0..nn { if member[k] { if par[k] == usize::MAX { roots.push(pos[k]); } else { kids[par[k]].push(pos[k]); } } }
 
-    let f = std::fs::File::create(out).expect("out file");
-    let mut w = BufWriter::new(f);
     let marks = std::fs::File::create(format!("{}.run", out)).expect("marker file");
     let mut marks = BufWriter::new(marks);
     reg::reset();
     let mut w0: World<C> = World::new(nvecs);
     let init = w0.observe();
     let _ = w0.teardown();
-    writeln!(w, "{}", json!({"id": 0, "cfg": cfg_json::<C>(profile), "init": init, "kids": roots, "nvecs": nvecs})).unwrap();
+    let _ = (&pos, &kids, &roots);
+    // events are buffered: positions of dynamically created nodes (fault runs, health probes) are only known at the end
+    let mut evs: Vec<(usize, Value)> = vec![]; // (parent position, event); position of evs[i] is i + 2
+    let mut posof = vec![0usize; nn];
     let mut postsig = vec![0u64; nn];
     let mut nondet = 0u64;
     let mut nondet_at: Vec<(i64, i64)> = vec![];
+    let mut dyn_id: i64 = nodes.iter().map(|n| n.id).max().unwrap_or(0) + 1 + (shard.0 as i64) * 100_000_000;
+    let mut fault_runs = 0u64;
     for k in 0..nn {
         if !member[k] { continue; }
         let n = &nodes[k];
@@ -133,41 +154,115 @@ fn replay<C: Config>(cases: &str, out: &str, shard: (usize, usize), nvecs: usize
         chain.reverse();
         writeln!(marks, "{}", n.id).unwrap();
         marks.flush().unwrap();
-        reg::reset();
-        let mut world: World<C> = World::new(nvecs);
-        let _ = world.observe();
-        for &pk in &chain[..chain.len() - 1] {
-            let _ = world.step(&nodes[pk].act);
-            // determinism of the replay: the state after each prefix action is the state recorded when that
-            // action was the judged one
-            let obs = world.observe().to_string();
-            let sig = fnv(&obs);
-            if sig != postsig[pk] { nondet += 1; nondet_at.push((nodes[pk].id, n.id)); }
-        }
-        world.notes.clear();
+        let ppos = if par[k] == usize::MAX { 1 } else { posof[par[k]] };
+        // ---- the judged, fault-free execution
+        let run_prefix = |postsig: &Vec<u64>, nondet: &mut u64, nondet_at: &mut Vec<(i64, i64)>, check: bool| -> World<C> {
+            reg::reset();
+            let mut world: World<C> = World::new(nvecs);
+            let _ = world.observe();
+            for &pk in &chain[..chain.len() - 1] {
+                let _ = world.step(&nodes[pk].act);
+                let obs = world.observe().to_string();
+                if check && fnv(&obs) != postsig[pk] { *nondet += 1; nondet_at.push((nodes[pk].id, n.id)); }
+            }
+            world.notes.clear();
+            world
+        };
+        let mut world = run_prefix(&postsig, &mut nondet, &mut nondet_at, true);
+        let calls0 = reg::user_calls();
         let (o, cbs, ovf) = world.step(&n.act);
+        let ncalls = reg::user_calls() - calls0;
         let post = world.observe();
         postsig[k] = fnv(&post.to_string());
-        let mut note = o.note.clone();
-        note.extend(world.notes.drain(..));
-        let (tcbs, tpanic) = world.teardown();
-        let live: Vec<u32> = reg::live_ids();
-        let (drops, clones, nexts, lens, mem) = cbs_json(&cbs);
-        let (tdrops, _, _, _, _) = cbs_json(&tcbs);
-        let ev = json!({
-            "id": n.id, "kids": kids[k], "act": n.act, "res": o.res,
-            "ret": o.ret.iter().map(|p| json!([p.0, p.1])).collect::<Vec<_>>(),
-            "hint": [o.hint.0, o.hint.1, o.hint.2], "born": o.born, "note": note,
-            "drops": drops, "clones": clones, "nexts": nexts, "lens": lens, "mem": mem, "cbovf": ovf,
-            "post": post,
-            "td": {"drops": tdrops, "live": live, "panic": tpanic, "zst": reg::zst_live()}
-        });
+        let mut ev = event_json::<C>(n.id, &n.act, &o, &cbs, ovf, &post, &mut world);
+        finish_td::<C>(&mut ev, &mut world, false);
+        evs.push((ppos, ev));
+        posof[k] = evs.len() + 1;
+        // ---- fault enumeration: the k-th invocation of user code inside this action panics
+        if faults && ncalls > 0 && ncalls <= 24 && o.res != "panic" {
+            for f in 1..=ncalls {
+                writeln!(marks, "{}", n.id).unwrap();
+                marks.flush().unwrap();
+                let mut world = run_prefix(&postsig, &mut nondet, &mut nondet_at, false);
+                reg::set_countdown(f as i64);
+                let (o, cbs, ovf) = world.step(&n.act);
+                let fired = reg::countdown() < 0;
+                reg::set_countdown(-1);
+                let post = world.observe();
+                dyn_id += 1;
+                let mut ev = event_json::<C>(dyn_id, &n.act, &o, &cbs, ovf, &post, &mut world);
+                ev["fault"] = json!(f);
+                ev["fired"] = json!(fired);
+                ev["dyn"] = json!({"base": n.id, "chain": [n.act.clone()]});
+                let mut chain_acts = vec![n.act.clone()];
+                fault_runs += 1;
+                // health probe: every outstanding handle is released, every vector read, extended and cleared
+                let mut cur_parent = ppos;
+                let mut cur = ev;
+                let mut guard = 0;
+                loop {
+                    let next = world.next_probe();
+                    guard += 1;
+                    match next {
+                        Some(act) if guard < 40 => {
+                            finish_td::<C>(&mut cur, &mut world, true);
+                            evs.push((cur_parent, cur));
+                            cur_parent = evs.len() + 1;
+                            let (o, cbs, ovf) = world.step(&act);
+                            let post = world.observe();
+                            dyn_id += 1;
+                            chain_acts.push(act.clone());
+                            cur = event_json::<C>(dyn_id, &act, &o, &cbs, ovf, &post, &mut world);
+                            cur["dyn"] = json!({"base": n.id, "fault": f, "chain": chain_acts.clone()});
+                        }
+                        _ => break,
+                    }
+                }
+                finish_td::<C>(&mut cur, &mut world, false);
+                evs.push((cur_parent, cur));
+            }
+        }
+    }
+    // positions are final: compute kids and write
+    let total = evs.len();
+    let mut kidsv: Vec<Vec<usize>> = vec![vec![]; total + 2];
+    for (i, (pp, _)) in evs.iter().enumerate() { kidsv[*pp].push(i + 2); }
+    let f = std::fs::File::create(out).expect("out file");
+    let mut w = BufWriter::new(f);
+    writeln!(w, "{}", json!({"id": 0, "cfg": cfg_json::<C>(profile), "init": init, "kids": kidsv[1], "nvecs": nvecs})).unwrap();
+    for (i, (_, ev)) in evs.iter_mut().enumerate() {
+        ev["kids"] = json!(kidsv[i + 2]);
         writeln!(w, "{}", ev).unwrap();
     }
     w.flush().unwrap();
     for (a, b) in nondet_at.iter().take(200) { writeln!(marks, "NONDET {} {}", a, b).unwrap(); }
-    writeln!(marks, "DONE {} {}", p - 1, nondet).unwrap();
+    writeln!(marks, "FAULTS {}", fault_runs).unwrap();
+    writeln!(marks, "DONE {} {}", total, nondet).unwrap();
     marks.flush().unwrap();
+}
+
+fn event_json<C: Config>(id: i64, act: &Value, o: &ActOut, cbs: &[reg::Cb], ovf: bool, post: &Value, world: &mut World<C>) -> Value {
+    let mut note = o.note.clone();
+    note.extend(world.notes.drain(..));
+    let (drops, clones, nexts, lens, mem) = cbs_json(cbs);
+    json!({
+        "id": id, "act": act, "res": o.res,
+        "ret": o.ret.iter().map(|p| json!([p.0, p.1])).collect::<Vec<_>>(),
+        "hint": [o.hint.0, o.hint.1, o.hint.2], "born": o.born, "note": note,
+        "drops": drops, "clones": clones, "nexts": nexts, "lens": lens, "mem": mem, "cbovf": ovf,
+        "post": post
+    })
+}
+/// `skip`: the world lives on (a chain of events from one execution); otherwise tear everything down and log it
+fn finish_td<C: Config>(ev: &mut Value, world: &mut World<C>, skip: bool) {
+    if skip {
+        ev["td"] = json!({"skip": true, "drops": [], "live": [], "panic": false, "zst": 0});
+    } else {
+        let (tcbs, tpanic) = world.teardown();
+        let live: Vec<u32> = reg::live_ids();
+        let (tdrops, _, _, _, _) = cbs_json(&tcbs);
+        ev["td"] = json!({"skip": false, "drops": tdrops, "live": live, "panic": tpanic, "zst": reg::zst_live()});
+    }
 }
 
 fn main() {
@@ -179,12 +274,14 @@ fn main() {
     let mut shard = (0usize, 1usize);
     let mut nvecs = 2usize;
     let mut skip: Vec<i64> = vec![];
+    let mut faults = false;
     let mut i = 2;
     while i < args.len() {
         match args[i].as_str() {
             "--config" => { cfg = args[i + 1].clone(); i += 2; }
             "--cases" => { cases = args[i + 1].clone(); i += 2; }
             "--out" => { out = args[i + 1].clone(); i += 2; }
+            "--faults" => { faults = true; i += 1; }
             "--skip" => { skip = args[i + 1].split(',').filter(|x| !x.is_empty()).map(|x| x.parse().unwrap()).collect(); i += 2; }
             "--nvecs" => { nvecs = args[i + 1].parse().unwrap(); i += 2; }
             "--shard" => { let p: Vec<usize> = args[i + 1].split('/').map(|x| x.parse().unwrap()).collect(); shard = (p[0], p[1]); i += 2; }
@@ -196,13 +293,13 @@ fn main() {
         ($($c:ident),*) => {
             match (args[1].as_str(), cfg.as_str()) {
                 ("list", _) => { $( println!("{}", <$c as Config>::NAME); )* }
-                $( ("replay", x) if x == <$c as Config>::NAME => replay::<$c>(&cases, &out, shard, nvecs, profile, &skip), )*
+                $( ("replay", x) if x == <$c as Config>::NAME => replay::<$c>(&cases, &out, shard, nvecs, profile, &skip, faults), )*
                 _ => { eprintln!("unknown command/config"); std::process::exit(3); }
             }
         };
     }
     #[cfg(feature = "alloc")]
-    dispatch!(CHeap8d, CHeap3n, CHeap160, CHeap0d, CStack24x3, CStackN3);
+    dispatch!(CHeap8d, CHeap3n, CHeap160, CHeap0d, CHeap1n, CHeap2d, CHeap12d, CHeap16d, CHeap24d, CHeap32d, CHeap64n, CHeap160a32, CHeap0n, CStack24x3, CStackN3);
     #[cfg(not(feature = "alloc"))]
     dispatch!(CStack24x3, CStackN3);
 }
